@@ -102,7 +102,7 @@ def gen(ctx):
                     cases.append({"kind": "cmp-fn", "text": t, "doc": [doc]})
     ctx.exhaustive_spaces.append("comparison table: 46 x 46 values x 6 operators, query operands, literal operands and function-result operands")
     # every pattern of the dialect pool x match / search x a set of subjects (dots inside and outside classes, escapes)
-    subjects = ["", "a", "ab", "abc", "a.c", "a.b", ".", "..", "x.y", "xzy", "1.5", "10", ",", "a,b", "b", "ba", "aab", "cxx", "y", "xy"]
+    subjects = ["", "a", "ab", "abc", "a.c", "a.b", ".", "..", "x.y", "xzy", "1.5", "10", ",", "a,b", "b", "ba", "aab", "cxx", "y", "xy", "ab\n", "a\n", "\n", "abc\n\n", "a\r", "x.y\n"]      # a line feed at the end is part of the string
     for pat in qgen.REGEXES:
         plit = "'" + pat.replace("\\", "\\\\").replace("'", "\\'") + "'"
         for fn in ("match", "search"):
